@@ -18,6 +18,7 @@ DISPATCH = {
     "C06": ("harness.props.g1", "run"),
     "C03": ("harness.props.g1", "run"),
     "C05": ("harness.props.g1", "run"),
+    "C08": ("harness.props.g1", "run"),
     "C09": ("harness.props.g1", "run"),
     "C11": ("harness.props.c11", "run"),
 }
